@@ -26,6 +26,7 @@ MC = {"quick": [("MC_System", "MC_System.cfg", 4, {"SYS_BASE": str(BASEDIR / f"{
       "thorough": [("MC_System", "MC_System_thorough.cfg", 8, {"SYS_BASE": str(BASEDIR / f"{c}.tlc.json")}) for c in BASES]}
 TRACE = ("Trace_System", "Trace_System.cfg")
 REQUIRED = ["Access", "Copy", "MakeMask", "SaveMask", "LoadMask", "ApplyMask", "SelectVariables", "Mutate", "Save", "Open",
+            "Query", "SelectCell", "query-clipped-away", "query-on-derived", "cell-of-derived",
             "derived-view", "clip-of-clip", "clip-after-mutation", "reopen-clipped", "mask-reloaded", "mask-on-other-dataset"]
 RULE = ("one case = one behaviour of spec/EmsSystem.tla (depth 8, TLC -simulate) on a base dataset of a detectable convention: "
         "access / copy / make mask (points strictly inside the chosen cells) / save + load mask / apply to any dataset with the "
@@ -44,7 +45,8 @@ def base_world(conv: str, rng: random.Random) -> dict:
         w = GW.structured_world(conv, 2, 3, shape="skew", coords_as="plain")
     else:
         w = GW.structured_world(conv, 2, 3, shape="skew", bounds=True, coords_as="plain" if conv == "cf2d" else "coords")
-    CD.add_data_vars(w, rng, rich=False)
+    # (a single depth layer on three of the bases: a dimension of length 1 has to survive every derivation and selection)
+    CD.add_data_vars(w, rng, rich=False, ksize=1 if conv in ("cf2d", "shoc_standard", "ugrid") else 2)
     return w
 
 
@@ -89,7 +91,10 @@ def cases(tier: str, seed: int) -> list[dict]:
             {"hist": [{"a": "MakeMask", "obj": 1, "F": valid[:3]}, {"a": "SaveMask", "mask": 1}, {"a": "LoadMask", "file": 1},
                       {"a": "Copy", "obj": 1}, {"a": "Mutate", "obj": 2, "k": 1}, {"a": "ApplyMask", "obj": 2, "mask": 2},
                       {"a": "MakeMask", "obj": 3, "F": valid[:2]}, {"a": "ApplyMask", "obj": 3, "mask": 3},
-                      {"a": "Save", "obj": 4}, {"a": "Open", "file": 2}, {"a": "Access", "obj": 5}, {"a": "Access", "obj": 1}]},
+                      {"a": "Save", "obj": 4}, {"a": "Open", "file": 2}, {"a": "Access", "obj": 5}, {"a": "Access", "obj": 1},
+                      {"a": "Query", "obj": 3, "cell": valid[0]}, {"a": "Query", "obj": 3, "cell": valid[-1]},
+                      {"a": "Query", "obj": 5, "cell": valid[1]}, {"a": "SelectCell", "obj": 4, "pos": 1},
+                      {"a": "SelectCell", "obj": 1, "pos": 2}]},
             # select variables, then clip the subset with a mask made on the original
             {"hist": [{"a": "SelectVariables", "obj": 1, "names": names[:1]}, {"a": "MakeMask", "obj": 1, "F": valid[-2:]},
                       {"a": "ApplyMask", "obj": 2, "mask": 1}, {"a": "Access", "obj": 2}, {"a": "Copy", "obj": 3},
@@ -207,6 +212,24 @@ def execute(case: dict) -> dict:
                     conv_id(d.ems)
                     p = work / f"ds{k}.nc"
                     d.ems.to_netcdf(p); files.append(p)
+                elif a == "Query":
+                    d = objs[e["obj"] - 1]
+                    conv_id(d.ems)
+                    x, y = interior_point(rings[e["cell"]])
+                    hit = d.ems.get_index_for_point(shapely.Point(x * SCALE, y * SCALE))
+                    obs["answer"] = -1 if hit is None else int(hit.linear_index)
+                elif a == "SelectCell":
+                    d = objs[e["obj"] - 1]
+                    conv_id(d.ems)
+                    r = d.ems.select_index(d.ems.wind_index(e["pos"] - 1))
+                    specs = {v["name"]: v for v in w["vars"]}
+                    cell = []
+                    for n in r.data_vars:
+                        if n in specs:
+                            a_ = CD.proj_array(n, r[n])
+                            a_["data"] = clipdrv.proj_var_values(specs[n], r[n])
+                            cell.append(a_)
+                    obs["cell"] = cell
                 elif a == "Open":
                     r = xarray.open_dataset(files[e["file"] - 1]).load(); r.close()
                     objs.append(r); obs["subject"] = len(objs)
